@@ -7,7 +7,7 @@ from ..cfg import cfg_of
 from ..q import (find, match, const, try_const, only_via, tests, stmt_nodes, one, fmt, cfg_node_for, linear, calls)
 from ..core import key
 
-EXPLANATION = (
+EXPLANATION = ('R5 effect rule: no write command is reachable in the resolved call graph from any _read_ndef_data (readers never remove in-progress marks).  ' +
     'Typestate over the CFG of every NDEF write routine.  Type 1/2: the length byte is zeroed and flushed before any data '
     'store, data and terminator are flushed before any length store, every length store is flushed before the function '
     'returns, and the commit byte (the first length byte) is flushed on its own after the extended length bytes are on the '
@@ -211,17 +211,62 @@ def rule_t4(report, prog):
     report.check(okk, 'C02-R5', key(w.qname, 'wipe zeroes NLEN before overwriting data'), w.loc(), 'wipe overwrites data before NLEN is zero')
 
 
+WRITE_PRIMITIVES = ('.write_byte', '.write_block', '.write', '.write_without_encryption', '.write_to_ndef_service', '.write_without_mac',
+                    '.write_with_mac', '._update_binary', '._write_attribute_data', '._write_to_tag', '.synchronize', '._write_ndef_data',
+                    '.format', '.protect', '._format', '._protect')
+
+
+def rule_read_is_pure(report, prog):
+    """R5: reading never changes the tag.  The "in progress" marks an interrupted write leaves behind (zero length, WriteFlag, NLEN 0)
+    protect a later reader only as long as no reader removes them: no command that writes tag memory is reachable, in the resolved
+    call graph, from the NDEF detection / read routines of any tag class."""
+    from ..resolve import Resolver, Ctx
+    from ..callgraph import closure
+    res = Resolver(prog)
+    base = prog.cls('nfc.tag.Tag.NDEF')
+    n = 0
+    for c in sorted(prog.subclasses(base), key=lambda c: c.qname):
+        f = c.methods.get('_read_ndef_data')
+        if f is None:
+            continue
+        n += 1
+        reach = closure(prog, res, f, Ctx(c))
+        bad = sorted((q, chain) for q, (g, chain) in reach.items() if q.startswith('nfc.tag.') and q.endswith(WRITE_PRIMITIVES)
+                     and '.Emulation' not in q and 'Emulation.' not in q)
+        report.check(not bad, 'C02-R5', key(c.qname, 'no tag write is reachable from the read routine'), f.loc(),
+                     '%s._read_ndef_data can reach the write command %s (via %s): a reader that modifies the tag can remove the mark an '
+                     'interrupted write left and present the half-written area as a message' % (
+                         c.qname, bad[0][0] if bad else '', ' -> '.join(bad[0][1][-3:]) if bad else ''),
+                     detail='%d functions reachable' % len(reach))
+    report.floor('C02-R5', n, 4)
+
+
 def run(report, prog, tier):
     rule_t12(report, prog)
     rule_writeback(report, prog)
     rule_t3(report, prog)
     rule_t4(report, prog)
+    rule_read_is_pure(report, prog)
     report.trusted += ['a flush (synchronize) writes changed units in ascending address order, one command per unit; a cut falls between commands',
                        'a reader treats NDEF TLV length 0 / WriteFlag != 0 / NLEN 0 as empty or not readable']
     report.assumptions += ['the NDEF TLV offset is a run-time value and need not be aligned to the write unit']
 
 
 MUTANTS = [
+    ('tt3-reader-clears-write-flag', 'nfc.tag.tt3', """            if attributes['nbr'] == 0:
+                log.debug("number of blocks for read is zero")""", """            if attributes['writef'] != 0:
+                attributes['writef'] = 0
+                self._write_attribute_data(attributes)
+            if attributes['nbr'] == 0:
+                log.debug("number of blocks for read is zero")""", 'C02-R5'),
+    ('tt2-reader-repairs-terminator', 'nfc.tag.tt2', """        def _read_ndef_data(self):
+            log.debug("read ndef data")
+            tag_memory = Type2TagMemoryReader(self.tag)
+""", """        def _read_ndef_data(self):
+            log.debug("read ndef data")
+            tag_memory = Type2TagMemoryReader(self.tag)
+            tag_memory.synchronize()
+""", 'C02-R5'),
     ('tt2-no-first-flush', 'nfc.tag.tt2', """            tag_memory[offset+1] = 0
             tag_memory.synchronize()
 """, """            tag_memory[offset+1] = 0
